@@ -12,6 +12,7 @@ import (
 	"unicode/utf8"
 
 	"github.com/ichiban/prolog"
+	"github.com/ichiban/prolog/engine"
 
 	"verif/h"
 	"verif/ref"
@@ -64,6 +65,24 @@ func (e *eofWithDataReader) Read(p []byte) (int, error) {
 	return n, nil
 }
 
+// growingReader is a host source that can receive more input after it reported io.EOF (a terminal,
+// a pipe, a buffer the host fills again): the environment event "feed".
+type growingReader struct {
+	buf []byte
+	off int
+}
+
+func (g *growingReader) Read(p []byte) (int, error) {
+	if g.off >= len(g.buf) {
+		return 0, io.EOF
+	}
+	n := copy(p, g.buf[g.off:])
+	g.off += n
+	return n, nil
+}
+
+var c19Feeds = map[string]string{"feed1": "bc", "feed2": "d. é"}
+
 // ---- reference cursor model ---------------------------------------------------------------------
 
 type c19Model struct {
@@ -73,6 +92,7 @@ type c19Model struct {
 	binary bool
 	eof    string
 	dead   bool // after an error whose effect on the cursor is unspecified: nothing more is asserted
+	stale  bool // the source grew and the stream has not looked at it yet: its end-of-stream state is not asserted
 }
 
 var c19ReadSkipsLayout = -1 // don't-care resolved by observing the implementation once
@@ -151,7 +171,25 @@ func (m *c19Model) step(op string) c19Exp {
 	if (textOp && m.binary) || (byteOp && !m.binary) {
 		return c19Exp{errReq: true}
 	}
+	if seg, ok := c19Feeds[op]; ok {
+		m.data = append(append([]byte{}, m.data...), seg...)
+		m.stale = true
+		return c19Exp{}
+	}
 	atEnd := m.pos >= len(m.data)
+	if m.stale {
+		switch op {
+		case "at_end", "end_of_stream":
+			return c19Exp{}
+		case "position":
+		default:
+			// the next input operation looks at the source: an eof_action(reset) stream continues with the new input
+			m.stale = false
+			if !atEnd {
+				m.past = false
+			}
+		}
+	}
 	pastAction := func() (c19Exp, bool) {
 		if m.past {
 			switch m.eof {
@@ -296,6 +334,8 @@ func c19Goal(op string, i int) (goal string, v string) {
 	switch op {
 	case "get_char", "peek_char", "get_code", "peek_code", "get_byte", "peek_byte":
 		return fmt.Sprintf("%s(in, %s)", op, v), v
+	case "feed1", "feed2":
+		return op, ""
 	case "neg_peek_char":
 		return "\\+ peek_char(in, '~')", ""
 	case "neg_peek_byte":
@@ -323,6 +363,7 @@ func c19Run(c *c19Case) (exp, act, sig string, ok bool) {
 	defer os.RemoveAll(dir)
 	data := []byte(c.Source)
 	var p *prolog.Interpreter
+	var gr *growingReader
 	out := &bytes.Buffer{}
 	alias := "in"
 	switch c.Kind {
@@ -344,9 +385,21 @@ func c19Run(c *c19Case) (exp, act, sig string, ok bool) {
 			r = oneByteReader{strings.NewReader(c.Source)}
 		case "eof-with-data-reader":
 			r = &eofWithDataReader{data: data}
+		case "growing-reader":
+			gr = &growingReader{buf: append([]byte{}, data...)}
+			r = gr
 		}
 		p = prolog.New(r, out)
 		alias = "user_input"
+		if gr != nil {
+			for name, seg := range c19Feeds {
+				seg := seg
+				p.Register0(engine.NewAtom(name), func(_ *engine.VM, k engine.Cont, env *engine.Env) *engine.Promise {
+					gr.buf = append(gr.buf, seg...)
+					return k(env)
+				})
+			}
+		}
 	}
 	m := &c19Model{data: data, binary: c.Binary, eof: c.Eof}
 	type obs struct {
@@ -586,6 +639,35 @@ func c19Work(w *h.W) {
 			}
 		}
 	}
+	// a host source that grows after it reported end of file (eof_action(reset), the default for host readers)
+	growOps := append(append([]string{}, textOps[:7]...), "feed1", "feed2")
+	for _, src := range []string{"", "a", "a. "} {
+		for l := 1; l <= w.Pick(4, 5); l++ {
+			seqs(l, len(growOps), func(idx []int) bool {
+				hasFeed := false
+				for _, i := range idx {
+					hasFeed = hasFeed || i >= 7
+				}
+				if !hasFeed {
+					return true // without a feed this is the strings-reader family above
+				}
+				for _, conj := range []bool{false, true} {
+					if !w.Mine() {
+						continue
+					}
+					if w.Expired() {
+						return false
+					}
+					ops := make([]string, l)
+					for k, i := range idx {
+						ops[k] = growOps[i]
+					}
+					emit(&c19Case{Source: src, Kind: "growing-reader", Eof: "reset", Ops: ops, Conj: conj})
+				}
+				return true
+			})
+		}
+	}
 	for _, src := range c19ByteSources {
 		for _, e := range []string{"error", "eof_code", "reset"} {
 			for l := 1; l <= maxLen; l++ {
@@ -635,7 +717,7 @@ func c19Replay(b []byte) (string, string, bool) {
 func init() {
 	h.Register(&h.Check{
 		ID: "C19",
-		Rule: "all sequences of <= L input operations out of {get_char, peek_char, read_term, at_end_of_stream, position, end_of_stream, a failing peek with an instantiated argument} (thorough: plus get_code, peek_code, a byte operation on a text stream) over 15 short source texts (ASCII and multi-byte, with and without trailing layout, comments, 0'c, quoted atoms, text ending inside a term) and 3 long ones whose operations straddle byte 4096 of the buffer, x stream kinds {file opened by open/4 with each eof_action, host strings.Reader, a one-byte-at-a-time reader, a reader that returns data together with io.EOF}; the same for binary files over 5 byte sources with {get_byte, peek_byte, ...}; every sequence issued BOTH as separate queries and as consecutive goals of one conjunction; plus all sequences of <= L output operations to the host writer and to a file. Distinct = case.",
+		Rule: "all sequences of <= L input operations out of {get_char, peek_char, read_term, at_end_of_stream, position, end_of_stream, a failing peek with an instantiated argument} (thorough: plus get_code, peek_code, a byte operation on a text stream) over 15 short source texts (ASCII and multi-byte, with and without trailing layout, comments, 0'c, quoted atoms, text ending inside a term) and 3 long ones whose operations straddle byte 4096 of the buffer, x stream kinds {file opened by open/4 with each eof_action, host strings.Reader, a one-byte-at-a-time reader, a reader that returns data together with io.EOF}; a host source that GROWS after it reported end of file (environment events feed1/feed2 interleaved with the operations, all sequences of <= 4 (5) over 9 symbols on 3 initial texts); the same for binary files over 5 byte sources with {get_byte, peek_byte, ...}; every sequence issued BOTH as separate queries and as consecutive goals of one conjunction; plus all sequences of <= L output operations to the host writer and to a file. Distinct = case.",
 		Explanation: "state = (byte offset, end-of-file delivered) of the reference cursor; transition = one input predicate on the real stream; every operation's observed value is compared with the reference cursor model (peeks leave the cursor, reads deliver consecutive characters/bytes/terms, end_of_file then the eof_action, position = bytes consumed, end_of_stream never at/past while input remains and past once end_of_file was delivered)",
 		Assumptions: []string{"whether read_term/3 consumes the layout character after the end token is implementation defined and resolved by observing the implementation once", "after a syntax error the cursor is unspecified: the rest of that sequence is not asserted"},
 		Work:        c19Work,
